@@ -24,6 +24,10 @@ Proof.
   - apply (Permutation_in x H Hx).
   - apply (Permutation_in x (Permutation_sym H) Hx).
 Qed.
+Lemma nth_map_lt {A B} (f : A -> B) l k d d' : k < length l -> nth k (map f l) d' = f (nth k l d).
+Proof. intros. rewrite nth_indep with (d' := f d) by (now rewrite map_length). apply map_nth. Qed.
+Lemma iter_plus {A} (f : A -> A) b a x : Nat.iter (b + a) f x = Nat.iter b f (Nat.iter a f x).
+Proof. induction b; simpl; congruence. Qed.
 Lemma rev_seq_S n : rev (seq 1 (S n)) = S n :: rev (seq 1 n).
 Proof. rewrite seq_S, rev_app_distr. reflexivity. Qed.
 
@@ -179,7 +183,7 @@ Proof.
   apply (IH _ B). discriminate.
 Qed.
 
-Lemma init_inv Sm Y : chain 1 Y 1 -> wfS (length Y) Sm -> Inv S (length Y) (init_st K Sm Y) O.
+Lemma init_inv Sm Y : chain 1 Y 1 -> wfS (length Y) Sm -> Inv Sm (length Y) (init_st K Sm Y) O.
 Proof.
   intros C W. set (d := length Y). unfold init_st. fold d.
   set (Yr0 := map (fun G => repeat (repeat 1 (cr2 G)) (length Sm)) Y).
@@ -194,12 +198,11 @@ Proof.
       intros k' Hk' Hd. unfold Rok, stp. cbn [pred]. destruct (Nat.eq_dec k' n) as [->|Hne].
       + rewrite nth_upd_eq by lia. rewrite (HR (S n)) by lia. rewrite rupdate_map.
         apply map_ext_in. intros sm Hin. unfold wfS in W. rewrite Forall_forall in W. specialize (W sm Hin).
-        change n with (pred (S n)) at 2. rewrite rvec_pred by (fold d; lia). reflexivity.
+        symmetry. apply (rvec_pred Y (S n) (sidx sm)); fold d; lia.
       + rewrite nth_upd_neq by auto. apply HR; lia. }
   destruct (F (d - 1) Yr0) as [FL FR]; [lia | unfold Yr0; now rewrite map_length | |].
   { intros k' Hk' Hd. assert (k' = d - 1) by lia. subst k'. unfold Rok, Yr0.
-    rewrite nth_indep with (d' := (fun G => repeat (repeat 1 (cr2 G)) (length Sm)) dcore) by (rewrite map_length; fold d; lia).
-    rewrite map_nth. unfold d. rewrite (chain_last Y 1 1 C) by (intros ->; simpl in *; lia).
+    rewrite (nth_map_lt _ Y (d - 1) dcore) by (fold d; lia). unfold d. rewrite (chain_last Y 1 1 C) by (intros ->; simpl in *; lia).
     rewrite repeat_map. apply map_ext. intros sm. unfold rvec.
     replace (S (length Y - 1)) with (length Y) by (fold d; lia). now rewrite skipn_all. }
   constructor; cbn [sY sL sR]; auto.
@@ -214,7 +217,7 @@ Lemma fwd_step_dims Sm s k : map dims (sY (fwd_step K solve lamb Sm s k)) = map 
 Proof. unfold fwd_step. cbn [sY]. apply map_upd_same with (d := dcore). apply opt_core_dims. Qed.
 Lemma bwd_step_dims Sm s k : map dims (sY (bwd_step K solve lamb Sm s k)) = map dims (sY s).
 Proof. unfold bwd_step. cbn [sY]. apply map_upd_same with (d := dcore). apply opt_core_dims. Qed.
-Lemma fold_dims (f : st -> nat -> st) (H : forall s k, map dims (sY (f s k)) = map dims (sY s)) l s :
+Lemma fold_dims (f : @st T -> nat -> @st T) (H : forall s k, map dims (sY (f s k)) = map dims (sY s)) l s :
   map dims (sY (fold_left f l s)) = map dims (sY s).
 Proof. revert s; induction l as [|k l IH]; intros s; simpl; auto. now rewrite IH, H. Qed.
 Lemma sweep_dims Sm s : map dims (sY (sweep K solve lamb Sm s)) = map dims (sY s).
@@ -237,17 +240,20 @@ Proof. intros H. rewrite <- (map_length dims Y), H. apply map_length. Qed.
 (* cores after n sweeps from a fresh start = n reference sweeps *)
 Lemma als_cores_ref Sm Y n : chain 1 Y 1 -> wfS (length Y) Sm ->
   sY (Nat.iter n (sweep K solve lamb Sm) (init_st K Sm Y)) = Nat.iter n (ref_sweep K solve lamb Sm) Y.
-Proof. intros C W. apply (iter_sweep_sim S (length Y) (init_st K Sm Y) n W (init_inv Sm Y C W)). Qed.
+Proof. intros C W. apply (iter_sweep_sim Sm (length Y) (init_st K Sm Y) n W (init_inv Sm Y C W)). Qed.
 
 (* als_restart at the level of sweeps *)
 Lemma sweeps_restart Sm Y a b : chain 1 Y 1 -> wfS (length Y) Sm ->
   sY (Nat.iter (a + b) (sweep K solve lamb Sm) (init_st K Sm Y))
   = sY (Nat.iter b (sweep K solve lamb Sm) (init_st K Sm (sY (Nat.iter a (sweep K solve lamb Sm) (init_st K Sm Y))))).
 Proof.
-  intros C W. rewrite !als_cores_ref; auto.
-  - rewrite Nat.add_comm. apply Nat.iter_add.
-  - rewrite <- als_cores_ref by auto. eapply dims_chain; [symmetry; apply iter_sweep_dims | exact C].
-  - rewrite <- (dims_length _ _ (iter_ref_dims Sm Y a)). exact W.
+  intros C W.
+  set (sa := Nat.iter a (sweep K solve lamb Sm) (init_st K Sm Y)).
+  assert (D : map dims (sY sa) = map dims Y) by apply iter_sweep_dims.
+  assert (Ca : chain 1 (sY sa) 1) by (eapply dims_chain; [symmetry; exact D | exact C]).
+  assert (Wa : wfS (length (sY sa)) Sm) by (rewrite (dims_length _ _ D); exact W).
+  rewrite (als_cores_ref Sm Y (a + b) C W), (als_cores_ref Sm _ b Ca Wa).
+  unfold sa. rewrite (als_cores_ref Sm Y a C W). rewrite Nat.add_comm. apply iter_plus.
 Qed.
 
 (* ------------------------------------------------------------------ sample order *)
